@@ -59,8 +59,11 @@ type c09Gen struct {
 	WL     *WLCase  `json:"wl,omitempty"`
 	Script []uint32 `json:"script"`
 	Reject []int    `json:"reject_at,omitempty"`
-	built  *Built   // wl only
-	rec    spg.CharRecipe
+	// LocalOnly: the choice record depends on the list's construction order (uncapitalisable words): the
+	// generation is compared within this process, not with fresh processes
+	LocalOnly bool   `json:"local_only,omitempty"`
+	built     *Built // wl only
+	rec       spg.CharRecipe
 }
 
 func (g *c09Gen) desc() string {
@@ -181,6 +184,11 @@ func c09Sample(r *gen.R) *c09Gen {
 		w := genWLCase(r, wlOpts{minWords: 2, maxWords: 6, maxLen: 5, twins: false, uncap: false, noReqSep: r.Bool()})
 		for try := 0; try < 50 && !oracle.PremiseHolds(oracle.Normalize(w.Words)); try++ {
 			w.Words = wlInput(r, 2, 6, false, false) // two entries sharing a title-cased form make the choice record ambiguous
+		}
+		if r.Chance(1, 3) { // words title-casing does not change: compared within this process only
+			w.Words = append(w.Words, []string{"42", "Paris", "語"}[r.Intn(3)])
+			w.Scheme = []string{"one", "random", "all"}[r.Intn(3)]
+			g.LocalOnly = true
 		}
 		if w.SepKind == "user" {
 			w.SepKind, w.Preset = "preset", "SFDigits1"
@@ -449,6 +457,9 @@ func c09Case(c *Ctx) {
 			c.Exec(len(keys))
 			c.Count("fresh_process_replays", int64(len(keys)))
 			for i := range gens {
+				if gens[i].LocalOnly {
+					continue
+				}
 				if keys[i] != base[i] {
 					c.Violate("not-a-function-of-the-tape", fmt.Sprintf("%s: same recipe and source bytes gave %s here and %s in a fresh process", gens[i].desc(), base[i], keys[i]),
 						map[string]interface{}{"generation": gens[i].desc(), "script": gens[i].Script})
